@@ -29,7 +29,12 @@ CHILDREN = {
     "ch5": {"name": "ch5", "bbs": {}, "nodes": {
         "a": ["input", [], False], "b": ["input", [], False], "t": ["xor", ["a", "b"], False],
         "y": ["nand", ["t", "a"], True]}},
+    # node names that resemble instance names (first letters shared with "u", "m", "r_", "v")
+    "ch6": {"name": "ch6", "bbs": {}, "nodes": {
+        "u1": ["input", [], False], "m": ["not", ["u1"], False], "r_y": ["and", ["u1", "m"], True],
+        "v": ["buf", ["m"], True]}},
 }
+CHILD_NODE_NAMES = sorted({n for ch in CHILDREN.values() for n in ch["nodes"] if "." not in n})
 CHILD_FOR_TYPE = {"bbA": ["ch1", "ch5", "ch4"], "bbB": ["ch2"], "bbC": ["ch3"], "bbD": ["ch1"]}
 
 BASE_NAMES = ["a", "b", "c", "d", "e", "f", "g", "h"]
@@ -186,7 +191,7 @@ def gen_op(rng, model, w):
             n = rng.choice(BASE_NAMES + ODD_NAMES)
         if rng.random() < 0.12:
             # a name that a later composition call will want for itself: <instance>_<pin or child node>
-            n = f"{rng.choice(INSTS[:3])}_{rng.choice(['a', 'b', 'y', 'd', 'q', 'qn', 'p', 'z', 't', 'w', 'k'])}"
+            n = f"{rng.choice(INSTS[:3] if rng.random() < 0.5 else INSTS[:6])}_{rng.choice(CHILD_NODE_NAMES + ['k'])}"
         t = rng.choice(TYPES) if rng.random() < 0.93 else rng.choice(["foo", "bb_input", "bb_output", "AND"])
         uid = rng.random() < 0.25
         fi = fo = None
@@ -401,6 +406,9 @@ def classify_illegal(op, before, bbs_before):
                 return "connection key is not child io"
             if net not in nodes and not (isinstance(net, str) and net.startswith(inst + "_")):
                 return f"connection to missing node {net}"
+        for n in ch["nodes"]:
+            if f"{inst}_{n}" in nodes:
+                return f"name {inst}_{n} is taken"
         return None
     if k == "fill_blackbox":
         if op[1] not in bbs_before:
